@@ -157,7 +157,7 @@ theorem vmapSet_idem (nv nd : Nat) (vd : Option (List String)) (dims : List Stri
     · split at h
       · rename_i h1 h2
         cases vd with
-        | none => simp at h
+        | none => simp at h; subst h; simp [vmapSet]
         | some l =>
           simp only at h
           injection h with h
